@@ -86,8 +86,14 @@ pub fn gen_sem(args: &Args) {
     let mut f = std::fs::File::create(&out).expect("create out");
     let mut src = std::fs::File::create(format!("{out}.src")).expect("create src");
     let mut w = Worker::spawn(Duration::from_secs(10));
+    let steps = args.num("steps", 0);
     let opts = RunOpts {
         budget: Some(args.num("budget", DEFAULT_BUDGET)),
+        steps: steps > 0,
+        max_events: steps as usize,
+        bytecode: args.num("bytecode", 0) > 0,
+        heap: args.num("heap", 0) > 0,
+        release: args.num("heap", 0) > 0,
         ..Default::default()
     };
     for i in 0..n {
@@ -375,5 +381,59 @@ pub fn gen_ops(args: &Args) {
                 }
             }
         }
+    }
+}
+
+
+// ---------------------------------------------------------------------------
+// C11: loops run for very many iterations; only the back edges are recorded
+// ---------------------------------------------------------------------------
+pub fn long_loop_programs() -> Vec<(String, String)> {
+    let n = 70000;
+    vec![
+        ("top-level counting loop".into(),
+         format!("stel i = 0; stel s = 0; zolang i < {n} {{ i += 1; s = s + i % 7; }}; s")),
+        ("volgende on every other iteration".into(),
+         format!("stel i = 0; stel s = 0; zolang i < {n} {{ i += 1; als i % 2 == 0 {{ volgende; }}; s += 1; }}; functie plus(a, b) {{ a + b }}; plus(s, 2)")),
+        ("stop out of an endless loop, loop inside a function, value used".into(),
+         format!("functie tel(n) {{ stel k = 0; zolang ja {{ k += 1; als k >= n {{ stop; }}; als k % 3 == 0 {{ volgende; }}; {{ }}; k; }}; k }}; tel({n}) + tel(5)")),
+        ("nested loops with blocks and if-values".into(),
+         format!("stel i = 0; stel t = 0; zolang i < {m} {{ i += 1; stel j = 0; zolang j < 300 {{ j += 1; t += als j % 2 == 0 {{ 1; }} anders {{ {{ }}; 2; }}; als j == 299 {{ stop; }}; }}; }}; t", m = n / 280)),
+    ]
+}
+
+pub fn gen_loops(args: &Args) {
+    let out = args.get("out", "/dev/stdout");
+    let first_id = args.num("first-id", 1);
+    let mut f = std::fs::File::create(&out).expect("create out");
+    let mut src = std::fs::File::create(format!("{out}.src")).expect("create src");
+    let mut w = Worker::spawn(Duration::from_secs(120));
+    let jump: u8 = nederlang::verif::opcode_table()
+        .iter()
+        .find(|(_, n, _)| n == "Jump")
+        .map(|(b, _, _)| *b)
+        .unwrap_or(19);
+    let opts = RunOpts {
+        budget: Some(50_000_000),
+        steps: true,
+        max_events: 160_000,
+        step_filter: vec![jump],
+        bytecode: true,
+        ..Default::default()
+    };
+    let mut id = first_id;
+    for (what, text) in long_loop_programs() {
+        let r = w.eval(&text, &opts);
+        let mut rec = json!({"id":id,"fam":"long-loop","what":what,"mode":"backedge"});
+        for (k, v) in r.as_object().unwrap() {
+            rec[k] = v.clone();
+        }
+        if rec.get("bc").is_none() {
+            rec["bc"] = json!({"code":[],"consts":[]});
+            rec["steps"] = json!([]);
+        }
+        writeln!(f, "{}", rec).unwrap();
+        writeln!(src, "{}", json!({"id":id,"text":text})).unwrap();
+        id += 1;
     }
 }
